@@ -433,6 +433,21 @@ pub fn frames(payload: &[u8]) -> (Vec<Frame>, bool) {
     (out, true)
 }
 
+/// Offset at which the trailing run of PADDING frames of a payload starts (payload length if
+/// there is none, or if the payload does not parse).
+pub fn trailing_padding_start(payload: &[u8]) -> usize {
+    let mut r = Rd::new(payload);
+    let mut last_end = 0;
+    while r.left() > 0 {
+        match frame(&mut r) {
+            Ok(Frame::Padding(_)) => {}
+            Ok(_) => last_end = r.p,
+            Err(_) => return payload.len(),
+        }
+    }
+    last_end
+}
+
 fn frame(r: &mut Rd<'_>) -> R<Frame> {
     let ty = r.var()?;
     Ok(match ty {
